@@ -38,7 +38,7 @@ var c01TypedNames = []string{"int0", "false", "nil", "slice-tag", "map-tag", "sl
 
 var c01Sinks = []string{"text", "vtext", "attri", "bound", "vbind"}
 var c01Neighs = []string{"N0", "Nplain", "NentBefore", "NampAfter", "NattrEnt", "NattrLt"}
-var c01Constructs = []string{"top", "if", "else", "forroot", "forrootOuter", "forchild", "incbound", "incinterp", "slotprop", "slotnamed", "layout", "iffor", "slot2inc", "slot2incnamed", "forinc", "slot2", "slot2if", "slot2else", "slotloopif", "comp2if", "again", "increq", "incwrap", "increqslot"}
+var c01Constructs = []string{"top", "if", "else", "forroot", "forrootOuter", "forchild", "incbound", "incinterp", "slotprop", "slotnamed", "layout", "iffor", "inpre", "slot2inc", "slot2incnamed", "forinc", "slot2", "slot2if", "slot2else", "slotloopif", "comp2if", "again", "increq", "incwrap", "increqslot"}
 
 func c01NeighOK(sink, neigh string) bool {
 	switch sink {
@@ -99,6 +99,8 @@ func c01Program(sink, neigh, construct string) (Files, string) {
 		f["page.vuego"] = `<div>` + c01Sink(sink, neigh, "v", ` v-for="it in items"`) + `</div>`
 	case "forchild":
 		f["page.vuego"] = `<div v-for="it in items"><span>k</span>` + c01Sink(sink, neigh, "it", "") + `</div>`
+	case "inpre": // the sink is a descendant of <pre>: preformatted content has its own serialiser
+		f["page.vuego"] = `<div><pre class="src"><code>` + c01Sink(sink, neigh, "v", "") + `</code></pre></div>`
 	case "iffor":
 		f["page.vuego"] = `<div v-if="t" v-for="it in items">` + c01Sink(sink, neigh, "it", "") + `</div>`
 	case "incbound":
@@ -364,7 +366,7 @@ func init() {
 	core.Register(&core.Check{
 		ID:    "C01",
 		Level: "exploration",
-		Rule: "all token strings up to the bound over the alphabet " + fmt.Sprintf("%q", c01Alphabet) + " plus 7 non-string values, in every sink (text, v-text, interpolated attr, :attr, v-bind:attr) x static neighbourhood (6) x enclosing construct (" + fmt.Sprint(len(c01Constructs)) + ": 12 single-evaluation constructs swept with the full alphabet, 12 constructs in which one source node is evaluated repeatedly - slot content used twice / in a loop, cached components, template-rooted components, a second render - swept with the 7 tokens that matter for repeated interpolation); " +
+		Rule: "all token strings up to the bound over the alphabet " + fmt.Sprintf("%q", c01Alphabet) + " plus 7 non-string values, in every sink (text, v-text, interpolated attr, :attr, v-bind:attr) x static neighbourhood (6) x enclosing construct (" + fmt.Sprint(len(c01Constructs)) + ": 13 single-evaluation constructs (incl. a sink below <pre>) swept with the full alphabet, 12 constructs in which one source node is evaluated repeatedly - slot content used twice / in a loop, cached components, template-rooted components, a second render - swept with the 7 tokens that matter for repeated interpolation); " +
 			"oracle: HTML5 re-parse has the same element/attribute-name skeleton as with the value 'zqx', and a canary bound to `secret` never appears. non-trivial = value contains one of < > \" ' & {; distinct = distinct (context, token vector)",
 		Bounds:      map[string]string{"quick": "token strings of length <= 3 in all contexts; text sink inside 15 special host elements (raw-text, RCDATA, noscript in both scripting modes, select, table, svg text, style / script inside svg and math) with the host's end tag added to the alphabet, length <= 3", "thorough": "token strings of length <= 3 in all contexts, length 4 in the N0 neighbourhood of every sink and construct"},
 		Assumptions: []string{"golang.org/x/net/html is a faithful HTML5 parser", "v-html sinks and script/style bodies are exempt and never used as sinks"},
